@@ -308,6 +308,16 @@ impl Prop for Ztoz {
     }
 }
 
+pub fn classify_text(b: &[u8]) -> Option<(String, String, &'static str, serde_json::Value)> {
+    let text = std::str::from_utf8(b).ok()?;
+    let z = Zone::deserialise(text).ok()?;
+    let mut out = Outcome::pass(false);
+    match roundtrip_zone(&z, &mut out) {
+        Ok(()) => None,
+        Err((s, d)) => Some((s, d, "from-text", serde_json::json!({ "text": text }))),
+    }
+}
+
 pub fn def() -> PropertyDef {
     PropertyDef {
         id: "C13",
@@ -317,7 +327,13 @@ pub fn def() -> PropertyDef {
             "non-authoritative zones have the root apex; API-built zones use supported types only (deviation D7)",
             "byte equality of the two normalisations is not demanded (record order within a name follows HashMap order)",
         ],
-        parts: vec![Box::new(FromText), Box::new(FromApi), Box::new(Ztoz)],
+        parts: vec![
+            Box::new(crate::fuzzrun::CorpusPart { name: "corpus", target: "zone_roundtrip", classify: classify_text }),
+            Box::new(crate::fuzzrun::FuzzPart { name: "fuzz-zone_roundtrip", target: "zone_roundtrip", runs_per_job: 400_000, jobs: 8, max_len: 2_048, classify: classify_text }),
+            Box::new(FromText),
+            Box::new(FromApi),
+            Box::new(Ztoz),
+        ],
         budget_s: |t| t.pick(900, 10_800),
         needs_repo_bins: true,
     }
